@@ -15,8 +15,9 @@ def mrts_grid(g):
 
 
 def maxtau_grid(g):
-    # hits spike distances k/g exactly
-    return [Fr(0), Fr(1, g), Fr(2, g)]
+    # hits spike distances k/g exactly (ties); 3/(2g) lies strictly between two distances, so that a distance of
+    # 1/g is inside the bound but outside half of it
+    return [Fr(0), Fr(1, g), Fr(2, g), Fr(3, 2 * g)]
 
 
 class Space(object):
